@@ -134,14 +134,22 @@ def probe(rec, counter, call, what, ctx):
     rec.violation("inconsistent-call-returned-a-result", {"fault": what, **ctx, "kernel_entered": counter.n != before, "result": repr(r)[:200]})
 
 
-def do_case(rec, rng, case):
+def do_case(rec, rng, case, backend="llvm"):
     import tensora
     from tensora.compile import _porcelain
 
     counter = Counter()
     try:
         problem = engine.make_problem(case)
-        method = engine.jit_method(problem, None)
+        if backend == "cffi":
+            from tensora.compile import BackendCompiler, TensorMethod
+
+            try:
+                method = TensorMethod(problem, BackendCompiler.cffi)
+            except Exception as exc:  # noqa: BLE001 - refusals are C08's subject
+                raise engine.Refused(type(exc).__name__) from exc
+        else:
+            method = engine.jit_method(problem, None)
     except (engine.Refused, engine.InternalError):
         rec.count("no_kernel")
         return
@@ -150,7 +158,7 @@ def do_case(rec, rng, case):
         return
     dims = engine.input_dims(case)
     tensors = engine.jit_inputs(case)
-    ctx = {"assignment": case.assignment, "formats": dict(case.formats), "sizes": dict(case.sizes), "path": "tensor_method"}
+    ctx = {"assignment": case.assignment, "formats": dict(case.formats), "sizes": dict(case.sizes), "path": f"tensor_method[{backend}]"}
     # positive control: the consistent call returns and enters the kernel exactly once
     try:
         method(**tensors)
@@ -161,8 +169,25 @@ def do_case(rec, rng, case):
         rec.inconclusive_because("kernel_enter did not advance on a consistent call: the wrapper is not on the call path")
         return
     rec.count("consistent_calls")
+    rec.count(f"consistent_calls_{backend}")
     for what, kw, args in faults_for(rng, case, tensors, dims, False):
         probe(rec, counter, lambda: method(*args, **kw), what, ctx)
+    if backend == "llvm" and rng.random() < 0.5:
+        # the documented string entry point (kernel cache in front of TensorMethod)
+        try:
+            m2 = tensora.tensor_method(case.assignment, dict(case.formats))
+        except Exception as exc:  # noqa: BLE001
+            rec.violation("tensor_method-raised-for-a-problem-TensorMethod-accepts", {**ctx, "error": f"{type(exc).__name__}: {exc}"[:200]})
+            return
+        c2 = Counter()
+        if instrument(m2, c2):
+            ctx3 = {**ctx, "path": "tensor_method(str)"}
+            m2(**tensors)
+            if c2.n == 1:
+                rec.count("consistent_calls_string_api")
+                for what, kw, args in faults_for(rng, case, tensors, dims, False):
+                    probe(rec, c2, lambda: m2(*args, **kw), what, ctx3)
+        _porcelain.cachable_tensor_method.cache_clear()
     # evaluate(): formats come from the arguments, so only name/type/order/dimension faults apply
     orig = _porcelain.cachable_tensor_method
 
@@ -174,10 +199,13 @@ def do_case(rec, rng, case):
     _porcelain.cachable_tensor_method = hooked
     try:
         out_fmt = case.formats[case.target[1]]
-        ctx2 = {**ctx, "path": "evaluate"}
+        ctx2 = {**ctx, "path": "evaluate" if backend == "llvm" else "evaluate_cffi"}
         before = counter.n
+        evaluate = tensora.evaluate
+        if backend == "cffi":
+            from tensora.compile import evaluate_cffi as evaluate
         try:
-            tensora.evaluate(case.assignment, out_fmt, **tensors)
+            evaluate(case.assignment, out_fmt, **tensors)
         except Exception as exc:  # noqa: BLE001
             rec.violation("consistent-evaluate-raised", {**ctx2, "error": f"{type(exc).__name__}: {exc}"[:200]})
             return
@@ -185,7 +213,7 @@ def do_case(rec, rng, case):
             rec.inconclusive_because("kernel_enter did not advance on a consistent evaluate(): hook not on the call path")
             return
         for what, kw, args in faults_for(rng, case, tensors, dims, True):
-            probe(rec, counter, lambda: tensora.evaluate(case.assignment, out_fmt, **kw), what, ctx2)
+            probe(rec, counter, lambda: evaluate(case.assignment, out_fmt, **kw), what, ctx2)
     finally:
         _porcelain.cachable_tensor_method = orig
         _porcelain.cachable_tensor_method.cache_clear()
@@ -215,6 +243,21 @@ def shard(rec, tier, index, n_shards):
         target, tree = gen.random_assignment(rng, allow_broadcast_target=False)
         case = engine.build_case(rng, target, tree, None, capacity=None, origin="random", sizes_pool=sizes)
         do_case(rec, rng, case)
+    # the cffi back end: same validation code, other kernel object; ~1 s of C compilation per kernel,
+    # so a few per shard only (each kernel is compiled twice: TensorMethod and the evaluate_cffi cache)
+    cffi_shapes = ["a(i) = b(i) * c(i)", "A(i,j) = B(i,j) * B(j,i)", "A(i,k) = B(i,j) * C(j,k)", "a(i) = B(i,j) * c(j) + d(i)",
+                   "A(i,j) = B(i,j) + c(j)", "a() = B(i,j) * C(j,i)"]
+    for k, text in enumerate(cffi_shapes if tier == "thorough" else cffi_shapes[:4]):
+        if k % n_shards != index % len(cffi_shapes) and not (tier == "thorough" and (k + index) % 3 == 0):
+            continue
+        target, tree = gen.parse(text)
+        case = engine.build_case(rng, target, tree, None, capacity=None, origin="curated-cffi", sizes_pool=sizes)
+        do_case(rec, rng, case, backend="cffi")
+    # zero-sized dimensions next to size-1 ones (the -1 fault is skipped at 0, the +1 fault is 0 vs 1)
+    for text in SHAPES[index::n_shards][:3]:
+        target, tree = gen.parse(text)
+        case = engine.build_case(rng, target, tree, None, capacity=None, origin="curated-zero", sizes_pool=[0, 0, 1])
+        do_case(rec, rng, case)
     if index == 0:
         rec.sample({"assignment": "A(i,j) = B(i,j) * B(j,i)", "faults": ["missing:B", "extra", "positional", "nontensor-duck:B", "order+1:B", "mode-flip0:B", "ordering-swap:B", "dim+1:i:B[0]", "dim-1:j:B[1]"]})
 
@@ -224,6 +267,8 @@ def main(tier):
     run_shards(run, "c10", 12 if tier == "quick" else 16, timeout_s=900 if tier == "quick" else 7200)
     if run.counters.get("consistent_calls", 0) < 15 or run.counters.get("faults_refused", 0) < 1000:
         run.inconclusive_because("too few fault injections were judged")
+    if run.counters.get("consistent_calls_cffi", 0) < 1:
+        run.inconclusive_because("no kernel of the cffi back end was driven")
     run.assumptions += [
         "kernel entry is observed at the compiled function pointer held by the TensorMethod (positive control: a consistent call advances it)",
         "for evaluate() a different format is a different problem, not a fault",
